@@ -189,9 +189,185 @@ class RefRun:
 
     def trace(self, tid):
         ops = sorted(self.ops, key=lambda o: o["c"])
-        return {"tid": tid, "init": [self.cur0], "final": [self.final],
-                "ops": [{k: o[k] for k in ("k", "n", "old", "new", "res", "exc", "c", "r")} for o in ops],
+        return {"tid": tid, "init": [self.cur0], "final": [self.final], "hinit": 1, "hfinal": 1,
+                "ops": [dict({k: o[k] for k in ("k", "n", "old", "new", "res", "exc", "c", "r")}, via=0) for o in ops],
                 "commits": [], "tip": 0}
+
+
+# --------------------------------------------------------------------------- symbolic ref HEAD re-pointed concurrently
+N = b"refs/heads/n"
+SYM_LAYOUTS = ["loose", "packed", "mpacked"]
+
+
+class SymRun:
+    """Two branches m (name 1) and n (name 2) and the symbolic ref HEAD -> m in a real repository.
+    Operations are issued on HEAD (followed), on the branches directly, or re-point HEAD.
+    Values are indices of real root commits k1..k5; commits made during the run get indices >= 10."""
+
+    def __init__(self, ctx, layout, actors):
+        from dulwich.objects import Commit, Tree
+        from dulwich.repo import Repo
+        self.ctx, self.layout, self.actors = ctx, layout, actors
+        self.root = ctx.tmpdir("c08s")
+        r = Repo.init(self.root)
+        t = Tree()
+        r.object_store.add_object(t)
+        self.tree_id = t.id
+        self.k = {}
+        for i in range(1, 6):
+            c = Commit()
+            c.tree = t.id
+            c.parents = []
+            c.author = c.committer = b"a <a@b>"
+            c.author_time = c.commit_time = i
+            c.author_timezone = c.commit_timezone = 0
+            c.message = b"k%d" % i
+            r.object_store.add_object(c)
+            self.k[i] = c.id
+        self.idx = {v: i for i, v in self.k.items()}
+        r.refs[M] = self.k[1]
+        r.refs[N] = self.k[2]
+        r.refs.set_symbolic_ref(HEAD, M)
+        if layout == "packed":
+            r.refs.pack_refs(all=True)
+        elif layout == "mpacked":
+            r.refs.pack_refs(all=True)
+            r.refs[N] = self.k[2]
+            # n loose again (same value): only m lives in packed-refs alone
+            with open(os.path.join(self.root, ".git", "refs", "heads", "n"), "wb") as f:
+                f.write(self.k[2] + b"\n")
+        r.close()
+        self.world = sched.World(self.root, yield_pred=refpath_pred, wrap_files=True,
+                                 yield_ops={"open_excl", "open_r", "open_w", "replace", "rename", "unlink", "stat",
+                                            "lstat", "listdir", "mkdir", "rmdir", "fclose", "fwrite", "fflush"})
+        self.ops = []
+
+    def vi(self, sha):
+        if sha is None or sha == b"0" * 40:
+            return 0
+        if sha not in self.idx:
+            self.idx[sha] = 10 + len(self.idx)
+        return self.idx[sha]
+
+    def menu(self, r):
+        c, k, vi = r.refs, self.k, self.vi
+        NAMEIDX = {M: 1, N: 2}
+
+        def rd(name):
+            def call():
+                try:
+                    return vi(c[name])
+                except KeyError:
+                    return 0
+            return call
+
+        def link():
+            v = c.read_ref(HEAD)
+            return NAMEIDX.get(v[len(b"ref: "):].strip(), 9) if v and v.startswith(b"ref: ") else 0
+
+        def setu(name, i):
+            def call():
+                c[name] = k[i]
+                return 1
+            return call
+
+        def commit():
+            sha = r.get_worktree().commit(message=b"by actor", committer=b"a <a@b>", author=b"a <a@b>", commit_timestamp=50,
+                                          commit_timezone=0, author_timestamp=50, author_timezone=0, tree=self.tree_id)
+            ps = r.object_store[sha].parents
+            return ("commit", vi(ps[0]) if ps else 0, vi(sha))
+        # name -> (kind, via, n, old, new, call)
+        return {
+            "casH13": ("set_if_equals", 1, 0, 1, 3, lambda: c.set_if_equals(HEAD, k[1], k[3])),
+            "casH23": ("set_if_equals", 1, 0, 2, 3, lambda: c.set_if_equals(HEAD, k[2], k[3])),
+            "casH34": ("set_if_equals", 1, 0, 3, 4, lambda: c.set_if_equals(HEAD, k[3], k[4])),
+            "setH4": ("set_if_equals", 1, 0, -1, 4, setu(HEAD, 4)),
+            "readH": ("read", 1, 0, 0, 0, rd(HEAD)),
+            "link": ("read_link", 0, 1, 0, 0, link),
+            "symN": ("set_symref", 0, 1, 0, 2, lambda: (c.set_symbolic_ref(HEAD, N), 1)[1]),
+            "symM": ("set_symref", 0, 1, 0, 1, lambda: (c.set_symbolic_ref(HEAD, M), 1)[1]),
+            "setM3": ("set_if_equals", 0, 1, -1, 3, setu(M, 3)),
+            "setM5": ("set_if_equals", 0, 1, -1, 5, setu(M, 5)),
+            "casM15": ("set_if_equals", 0, 1, 1, 5, lambda: c.set_if_equals(M, k[1], k[5])),
+            "setN5": ("set_if_equals", 0, 2, -1, 5, setu(N, 5)),
+            "casN25": ("set_if_equals", 0, 2, 2, 5, lambda: c.set_if_equals(N, k[2], k[5])),
+            "rmN": ("remove_if_equals", 0, 2, 2, 0, lambda: c.remove_if_equals(N, k[2])),
+            "rmM": ("remove_if_equals", 0, 1, 1, 0, lambda: c.remove_if_equals(M, k[1])),
+            "readM": ("read", 0, 1, 0, 0, rd(M)),
+            "readN": ("read", 0, 2, 0, 0, rd(N)),
+            "commit": ("set_if_equals", 1, 0, 0, 0, commit),
+        }
+
+    def actor(self, a, names):
+        def body():
+            from dulwich.repo import Repo
+            r = Repo(self.root)
+            menu = self.menu(r)
+            for nm in names:
+                kind, via, n, old, new, call = menu[nm]
+                rec = {"k": kind, "via": via, "n": n if n else 1, "old": old, "new": new, "res": 0, "exc": False, "a": a, "name": nm}
+                self.world.note("call")
+                rec["c"] = self.world.seq
+                try:
+                    res = call()
+                    if isinstance(res, tuple):          # a commit: parent and id are only known afterwards
+                        rec["old"], rec["new"], res = res[1], res[2], 1
+                    rec["res"] = int(res) if res is not None else 1
+                except BaseException as e:
+                    rec["exc"] = True
+                    rec["excname"] = type(e).__name__
+                    e.__traceback__ = None
+                self.world.note("retop")
+                rec["r"] = self.world.seq
+                self.ops.append(rec)
+            r.close()
+        return body
+
+    def run(self, prefix=(), rng=None, p_switch=0.0, max_switch=None):
+        from dulwich.refs import DiskRefsContainer
+        s = sched.Scheduler(self.world, {a: self.actor(a, names) for a, names in enumerate(self.actors)},
+                            prefix, rng=rng, p_switch=p_switch, max_switch=max_switch)
+        with sched.Interposer(self.world):
+            s.run()
+        self.sched = s
+        c = DiskRefsContainer(os.path.join(self.root, ".git"))
+        fin = []
+        for name in (M, N):
+            try:
+                fin.append(self.vi(c[name]))
+            except KeyError:
+                fin.append(0)
+        self.final = fin
+        v = c.read_ref(HEAD)
+        self.hfinal = {M: 1, N: 2}.get(v[len(b"ref: "):].strip(), 9) if v and v.startswith(b"ref: ") else 0
+        self.leftover_locks = [f for dp, dn, fn in os.walk(self.root) for f in fn if f.endswith(".lock")]
+        shutil.rmtree(self.root, ignore_errors=True)
+        return s
+
+    def trace(self, tid):
+        ops = sorted(self.ops, key=lambda o: o["c"])
+        return {"tid": tid, "init": [1, 2], "final": self.final, "hinit": 1, "hfinal": self.hfinal,
+                "ops": [{k: o[k] for k in ("k", "n", "via", "old", "new", "res", "exc", "c", "r")} for o in ops],
+                "commits": [], "tip": 0}
+
+
+def sym_combos(ctx):
+    two = [("casH13", "symN"), ("setH4", "symN"), ("commit", "symN"), ("readH", "symN"), ("casH23", "symN"),
+           ("casH13", "casM15"), ("commit", "setM5"), ("commit", "commit"), ("link", "symN"), ("casH13", "rmM"),
+           ("setH4", "rmM")]
+    seq2 = [(("readH",), ("symN", "setM3")), (("readH", "readH"), ("symN", "setN5")), (("casH34",), ("symN", "setM3")),
+            (("commit",), ("symN", "setM5")), (("link", "readH"), ("symN", "symM")), (("readH",), ("setM3", "symN"))]
+    three = [("casH34", "symN", "setM3"), ("commit", "symN", "casN25"), ("readH", "symN", "setM3"), ("casH13", "symN", "symM"),
+             ("setH4", "symN", "rmN")]
+    out = []
+    for layout in SYM_LAYOUTS:
+        for c in two:
+            out.append((layout, [[c[0]], [c[1]]], ctx.pick(2, 3), ctx.pick(60, 1500)))
+        for c in seq2:
+            out.append((layout, [list(c[0]), list(c[1])], ctx.pick(2, 3), ctx.pick(80, 1500)))
+        for c in three:
+            out.append((layout, [[x] for x in c], ctx.pick(1, 2), ctx.pick(60, 1500)))
+    return out
 
 
 # --------------------------------------------------------------------------- commit scenario
@@ -327,8 +503,8 @@ class CommitRun:
     def trace(self, tid):
         ops = sorted(self.ops, key=lambda o: o["c"])
         commits = [{"id": 1, "parent": 0, "ok": True}] + self.commits
-        return {"tid": tid, "init": [1], "final": [self.tip],
-                "ops": [{k: o[k] for k in ("k", "n", "old", "new", "res", "exc", "c", "r")} for o in ops],
+        return {"tid": tid, "init": [1], "final": [self.tip], "hinit": 1, "hfinal": 1,
+                "ops": [dict({k: o[k] for k in ("k", "n", "old", "new", "res", "exc", "c", "r")}, via=0) for o in ops],
                 "commits": commits, "tip": self.tip}
 
 
@@ -347,11 +523,11 @@ def judge(ctx, traces, meta):
         ctx.add_tlc(f"RefsLin[{i}]", res, require_ok=False)
         if not res.completed:
             raise MachineryError("RefsLin did not complete\n" + res.output[-3000:])
-        okids, devids = set(), set()
+        okids, devids, symids = set(), set(), set()
         for line in res.output.splitlines():
             if line.startswith('<<"LIN"'):
                 v = tlc.tlaval.parse(line.strip())
-                (okids if v[2] == "strict" else devids).add(v[1])
+                {"strict": okids, "dev": devids, "devsym": symids}[v[2]].add(v[1])
         for t in chunk:
             n += 1
             if t["tid"] in okids:
@@ -361,6 +537,12 @@ def judge(ctx, traces, meta):
                 # explained only by the named deviation PackRead/PackWrite of RefsLin.tla
                 ctx.violation("dulwich/refs.py:DiskRefsContainer.pack_refs|DeletedRefResurrectedByPack",
                               f"pack_refs re-created a ref deleted after it had read its value: {m['desc']}",
+                              {"trace": t, "meta": m})
+            elif t["tid"] in symids:
+                # explained only by the named deviation SymResolve of RefsLin.tla
+                kinds = "+".join(sorted({o["k"] for o in t["ops"] if o["via"] == 1 and not o["exc"]}))
+                ctx.violation(f"dulwich/refs.py:RefsContainer.follow|SymrefResolvedOutsideLock|via-HEAD={kinds}",
+                              f"an operation issued on HEAD acted on the name HEAD pointed at earlier, not at any single moment: {m['desc']}",
                               {"trace": t, "meta": m})
             else:
                 ctx.violation(m["sig"], f"history not linearizable / commit lost: {m['desc']}",
@@ -386,17 +568,25 @@ def binding_controls(ctx, traces):
     b = copy.deepcopy(good)
     b["tid"] = 900002
     b["final"] = [7]
+    # a symbolic-ref history whose recorded final HEAD target is flipped must be rejected in every mode
+    symgood = next((t for t in traces if len(t["init"]) == 2 and any(o["k"] == "set_symref" and not o["exc"] for o in t["ops"])), None)
+    if symgood is None:
+        raise MachineryError("no symbolic-ref history available for the binding controls")
+    c = copy.deepcopy(symgood)
+    c["tid"] = 900003
+    c["hfinal"] = 3 - c["hfinal"] if c["hfinal"] in (1, 2) else 1
     d = ctx.tmpdir("ctl")
     path = os.path.join(d, "ctl.ndjson")
     with open(path, "w") as f:
-        for t in (a, b):
+        for t in (a, b, c):
             f.write(json.dumps(t, separators=(",", ":")) + "\n")
     res = tlc.run("RefsLin.tla", "RefsLin.cfg", workers=1, timeout=300, env={"TRACE_FILE": path})
     ctx.add_tlc("RefsLin[binding controls: flipped result, wrong final value]", res, require_ok=False)
-    acc = {v[1] for v in tlc.extract_printed(res.output, "LIN") if v[2] == "strict"}
-    if 900001 in acc or 900002 in acc:
+    printed = tlc.extract_printed(res.output, "LIN")
+    acc = {v[1] for v in printed if v[2] == "strict"} | {v[1] for v in printed if v[1] == 900003}
+    if 900001 in acc or 900002 in acc or 900003 in acc:
         raise MachineryError(f"binding control failed: corrupted histories accepted by RefsLin: {acc}")
-    ctx.cov["binding_controls"] = {"flipped_result_rejected": True, "wrong_final_rejected": True}
+    ctx.cov["binding_controls"] = {"flipped_result_rejected": True, "wrong_final_rejected": True, "wrong_head_target_rejected": True}
     shutil.rmtree(d, ignore_errors=True)
 
 
@@ -533,6 +723,30 @@ def run(ctx):
                      "choices": r.sched.choices(), "layout": cand["layout"], "actors": cand["actors"]}
         ctx.count()
         ctx.nontrivial(("cand", cand["name"]))
+    nsym = 0
+    for (layout, actors, maxp, limit) in sym_combos(ctx):
+        def run_once(prefix, layout=layout, actors=actors):
+            r = SymRun(ctx, layout, actors)
+            r.run(prefix)
+            r.sched.run_obj = r
+            return r.sched
+        names = "+".join(sorted(n for a in actors for n in a))
+        for s in sched.explore(run_once, max_preempt=maxp, limit=limit, rng=ctx.rng):
+            r = s.run_obj
+            tid += 1
+            nsym += 1
+            t = r.trace(tid)
+            traces.append(t)
+            nexc += sum(1 for o in r.ops if o["exc"])
+            meta[tid] = {"sig": f"dulwich/refs.py:DiskRefsContainer|NotLinearizable|sym ops={names} init={layout}",
+                         "desc": f"HEAD->m, m=k1, n=k2 ({layout}); ops={actors} results={[(o['name'], o['res'], o.get('excname')) for o in sorted(r.ops, key=lambda o: o['c'])]} final m,n={r.final} HEAD->{r.hfinal}",
+                         "choices": s.choices(), "sym_layout": layout, "actors": actors}
+            ctx.count()
+            ctx.nontrivial(("sym", layout, names, tuple((o["a"], o["name"], o["res"], o["exc"], o["c"], o["r"]) for o in r.ops), tuple(r.final), r.hfinal))
+            if r.leftover_locks:
+                ctx.violation(f"dulwich/refs.py:DiskRefsContainer|LockLeftBehind|sym ops={names} init={layout}",
+                              f"lock files left after all operations returned: {r.leftover_locks}", {"meta": meta[tid], "trace": t})
+    ctx.log(f"symbolic-ref histories: {nsym} executions")
     ctx.log(f"ref histories: {tid} executions, {nexc} operations ended with an exception (legitimate losers)")
     ctx.sample({"kind": "ref-history", "trace": traces[len(traces) // 3], "meta": meta[traces[len(traces) // 3]["tid"]]["desc"]})
     # commits
@@ -565,7 +779,8 @@ def run(ctx):
     binding_controls(ctx, traces)
     c08_model.validate_shapes(ctx)
     ctx.cov["rule"] = ("one real execution per schedule (bounded preemptions, system-call grain) of 2-3 actors performing ref operations "
-                       "or commits from each initial layout {absent, loose, packed, both}; distinct = distinct (layout, operations, "
+                       "or commits from each initial layout {absent, loose, packed, both}; two branches and the symbolic ref HEAD re-pointed "
+                       "concurrently with updates, reads and commits issued on HEAD (layouts loose, packed, mixed); distinct = distinct (layout, operations, "
                        "interval structure, results, final value); non-trivial = at least two operations overlap")
     ctx.assumptions += ["actors are greenlets with private DiskRefsContainer/Repo objects; only the file system is shared",
                         "an operation that raised (FileLocked, FileNotFoundError...) is a legitimate loser and must have no effect",
@@ -578,7 +793,14 @@ def replay(ctx, path):
     obj = json.load(open(path))
     print(json.dumps(obj, indent=1)[:6000])
     m = obj.get("meta", {})
-    if "layout" in m:
+    if "sym_layout" in m:
+        r = SymRun(ctx, m["sym_layout"], m["actors"])
+        r.run(m["choices"])
+        t = r.trace(1)
+        print("re-executed:", [(o["a"], o["name"], o["res"], o.get("excname")) for o in r.ops], "final", r.final, "HEAD->", r.hfinal)
+        ctx.known = []
+        judge(ctx, [t], {1: {"sig": obj["signature"], "desc": "replay"}})
+    elif "layout" in m:
         r = RefRun(ctx, m["layout"], m["actors"])
         r.run(m["choices"])
         t = r.trace(1)
